@@ -7,6 +7,7 @@ import (
 	"runtime"
 	"strings"
 	"sync"
+	"sync/atomic"
 	"time"
 
 	"github.com/emersion/go-sasl"
@@ -79,7 +80,7 @@ func c08Render(tok string, mode srvMode, k int) string {
 
 func c08Run(ctx *core.Ctx) {
 	cs := c08Corpus()
-	ctx.Rule = fmt.Sprintf("(1) every octet offset of %d conversations (DATA, BDAT, AUTH exchanges; SMTP/LMTP) x {clean close, timeout error, reset error} x {one segment, per line}; (2) a STARTTLS conversation cut at every plaintext offset and at every offset of the inner TLS conversation; (3) server-initiated ends {QUIT, error threshold, over-long line, idle timeout (virtual deadline), backend panic} x every suffix of length <=2 over %v already buffered in the closing command's segment x ReadTimeout {0, set} x {SMTP, LMTP}; each part also at GOMAXPROCS=1. Oracle: session-lifecycle automaton over the backend event log + goroutine table at the end of the run. Non-trivial: the connection ends while a session exists; distinct by full case.", len(cs), c08SuffixAlphabet)
+	ctx.Rule = fmt.Sprintf("(1) every octet offset of %d conversations (DATA, BDAT, AUTH exchanges; SMTP/LMTP) x {clean close, timeout error, reset error} x {one segment, per line}; (2) a STARTTLS conversation cut at every plaintext offset and at every offset of the inner TLS conversation; (3) server-initiated ends {QUIT, error threshold, over-long line, idle timeout (virtual deadline), backend panic inside Mail / NewSession / Rcpt / Data / Reset} x every suffix of length <=2 over %v already buffered in the closing command's segment x ReadTimeout {0, set} x {SMTP, LMTP}; each part also at GOMAXPROCS=1. Oracle: session-lifecycle automaton over the backend event log + goroutine table at the end of the run. Non-trivial: the connection ends while a session exists; distinct by full case.", len(cs), c08SuffixAlphabet)
 	ctx.Exhaustive = true
 	ctx.Assumptions = []string{"goroutine leak check is global: at the end of the run no goroutine with a go-smtp frame may remain", "known finding C08:data-begins-after-logout is matched only when the late Data call read zero octets"}
 	core.RunCases(ctx, func(emit func(c08Case)) {
@@ -126,12 +127,16 @@ func c08Run(ctx *core.Ctx) {
 			}
 		}
 		for _, mode := range []srvMode{modeSMTP, modeLMTPRcpt} {
-			for _, reason := range []string{"quit", "errors", "errors:FOO", "errors:ABCDE", "errors:", "errors:mixed", "longline", "timeout", "panic", "timeout-in-auth", "timeout-in-data"} {
+			for _, reason := range []string{"quit", "errors", "errors:FOO", "errors:ABCDE", "errors:", "errors:mixed", "longline", "timeout", "panic", "panic:NewSession", "panic:Rcpt", "panic:Data", "panic:Reset", "timeout-in-auth", "timeout-in-data"} {
 				for _, rt := range []bool{false, true} {
 					if strings.HasPrefix(reason, "timeout") && !rt {
 						continue
 					}
-					core.Strings(c08SuffixAlphabet, 2, func(parts []string) {
+					sufLen := 2
+					if strings.HasPrefix(reason, "panic:") {
+						sufLen = 1
+					}
+					core.Strings(c08SuffixAlphabet, sufLen, func(parts []string) {
 						emit(c08Case{Kind: "srvend", Reason: reason, Suffix: append([]string{}, parts...), ReadTimeout: rt, Mode: mode})
 					})
 				}
@@ -271,7 +276,7 @@ func c08Lifecycle(ctx *core.Ctx, c c08Case, l *rec.Log, replies []wire.Reply, gi
 		}
 	}
 	for _, e := range ev {
-		if e.Kind == "log" && strings.Contains(e.A, "panic") && reason != "panic" {
+		if e.Kind == "log" && strings.Contains(e.A, "panic") && !strings.HasPrefix(reason, "panic") {
 			return fail("C08:recovered-panic", "a panic was recovered while serving: "+clipStr(e.A, 300))
 		}
 	}
@@ -342,6 +347,37 @@ func c08Cut(ctx *core.Ctx, c c08Case) {
 		return
 	}
 	ctx.Add("replies_parsed", int64(len(replies)))
+	// a command is a line that was received up to and including its CRLF: what the peer had
+	// sent of the next line when it disconnected must not be executed
+	complete := map[string]int{}
+	off := 0
+	for _, st := range cv.Steps {
+		off += len(st.B)
+		if off > c.Cut {
+			break
+		}
+		up := strings.ToUpper(string(st.B))
+		switch {
+		case strings.HasPrefix(up, "MAIL FROM:"):
+			complete["Mail"]++
+		case strings.HasPrefix(up, "RCPT TO:"):
+			complete["Rcpt"]++
+		case strings.HasPrefix(up, "EHLO "), strings.HasPrefix(up, "LHLO "), strings.HasPrefix(up, "HELO "):
+			complete["NewSession"]++
+		}
+	}
+	began := map[string]int{}
+	for _, e := range rig.Log.Events() {
+		if e.Ph == "b" {
+			began[e.Kind]++
+		}
+	}
+	for _, k := range []string{"NewSession", "Mail", "Rcpt"} {
+		if began[k] > complete[k] {
+			ctx.Violate("C08:unterminated-command-executed", fmt.Sprintf("%d %s callbacks began although only %d such commands had been received completely when the peer disconnected [%s]", began[k], k, complete[k], c08Desc(c)), c, witness(rig.Log, replies))
+			return
+		}
+	}
 	if c08Lifecycle(ctx, c, rig.Log, replies, 0, "") {
 		cls := "cut/" + string(cv.Mode) + "/" + c.Failure
 		if ctx.WantSample(cls) {
@@ -476,6 +512,10 @@ func c08SrvEnd(ctx *core.Ctx, c c08Case) {
 		c08TimeoutInside(ctx, c)
 		return
 	}
+	if gaveUp("c08srvend|" + c.Reason) {
+		ctx.Add("cases_skipped_after_an_established_hang", 1)
+		return
+	}
 	ctx.Eval(fmt.Sprintf("srvend|%s|%v|%v|%s", c.Reason, c.Suffix, c.ReadTimeout, c.Mode), true)
 	rig := newRig(c.Mode, func(s *smtp.Server) {
 		if c.ReadTimeout {
@@ -488,6 +528,38 @@ func c08SrvEnd(ctx *core.Ctx, c c08Case) {
 			panic("scripted backend panic v#77")
 		}
 		return nil
+	}
+	switch c.Reason {
+	case "panic:NewSession":
+		rig.BE.H.NewSession = func(cn *smtp.Conn, sess int) error {
+			if strings.HasPrefix(cn.Hostname(), "panic") {
+				panic("scripted backend panic v#77 in NewSession")
+			}
+			return nil
+		}
+	case "panic:Rcpt":
+		rig.BE.H.Rcpt = func(sess int, to string, o *smtp.RcptOptions) error {
+			if strings.HasPrefix(to, "panic") {
+				panic("scripted backend panic v#77 in Rcpt")
+			}
+			return nil
+		}
+	case "panic:Data":
+		rig.BE.H.Data = func(sess int, r *rec.Reader, st smtp.StatusCollector) error {
+			r.ReadN(4, 4)
+			if strings.HasPrefix(string(r.Got), "PANI") {
+				panic("scripted backend panic v#77 in Data")
+			}
+			r.ReadAll(64)
+			return nil
+		}
+	case "panic:Reset":
+		var once atomic.Bool
+		rig.BE.H.Reset = func(sess int) {
+			if once.CompareAndSwap(false, true) {
+				panic("scripted backend panic v#77 in Reset")
+			}
+		}
 	}
 	p := rig.Dial()
 	defer p.Close()
@@ -523,6 +595,18 @@ func c08SrvEnd(ctx *core.Ctx, c c08Case) {
 	case "panic":
 		script = c.Mode.hello() + "\r\nMAIL FROM:<panic@x.test>\r\n"
 		nBefore = 2
+	case "panic:NewSession":
+		script = strings.Fields(c.Mode.hello())[0] + " panic.test\r\n"
+		nBefore = 1
+	case "panic:Rcpt":
+		script = c.Mode.hello() + "\r\nMAIL FROM:<s@x.test>\r\nRCPT TO:<panic@x.test>\r\n"
+		nBefore = 3
+	case "panic:Data":
+		script = c.Mode.hello() + "\r\nMAIL FROM:<s@x.test>\r\nRCPT TO:<r@x.test>\r\nDATA\r\nPANIC now\r\n.\r\n"
+		nBefore = 5
+	case "panic:Reset":
+		script = c.Mode.hello() + "\r\nMAIL FROM:<s@x.test>\r\nRSET\r\n"
+		nBefore = 3
 	case "timeout":
 		script = c.Mode.hello() + "\r\nMAIL FROM:<s@x.test>\r\n"
 		nBefore = 3
@@ -570,6 +654,7 @@ func c08SrvEnd(ctx *core.Ctx, c c08Case) {
 	ends := waitDataEnds(rig.Log)
 	if isWatchdog(rerr) || !fin || !ends {
 		ctx.Inconclusive("C08 watchdog " + c08Desc(c))
+		giveUp("c08srvend|" + c.Reason)
 		return
 	}
 	ctx.Add("replies_parsed", int64(len(replies)))
